@@ -39,6 +39,7 @@ type Fixture struct {
 	clients  []*core.Client
 	pending  []func() (int, int)
 	stops    []func()
+	poolRef  core.WorkerPool
 }
 
 // AllKinds lists the transports the fixture can wire up.
@@ -183,6 +184,7 @@ func (f *Fixture) NewClient() *core.Client {
 
 // SetPool installs a worker pool on the server-side handler (mux transports).
 func (f *Fixture) SetPool(p core.WorkerPool) bool {
+	f.poolRef = p
 	switch h := f.Service.GetHandler(strings.TrimSuffix(f.Kind, "-fast")).(type) {
 	case *socket.Handler:
 		h.Pool = p
